@@ -160,7 +160,17 @@ type findRec struct {
 	terminated     bool // the ActorKilledEvent of the target had been observed
 }
 
+// run executes the case; when the target passes fewer window points than the drawn index, the case is executed once more
+// with the index folded into the number of points it did pass.
 func run(t *testing.T, c WCase) (f facts, labels []string, harnessErr string) {
+	f, labels, harnessErr = runAt(t, c, c.Point)
+	if harnessErr == "" && !f.parked && f.points > 0 {
+		f, labels, harnessErr = runAt(t, c, c.Point%f.points)
+	}
+	return
+}
+
+func runAt(t *testing.T, c WCase, point int) (f facts, labels []string, harnessErr string) {
 	lab := map[string]bool{}
 	res := vt.Run(t, func() {
 		sysDec := []string{"restart"}
@@ -279,7 +289,7 @@ func run(t *testing.T, c WCase) (f facts, labels []string, harnessErr string) {
 			}
 			k := reached
 			reached++
-			hit := k == c.Point
+			hit := k == point
 			if hit {
 				armed, f.site = false, s
 			}
@@ -409,6 +419,9 @@ func judgeC06(c WCase, f facts) *verdict {
 	}
 	if killedEvents > maxKilled || (killedEvents > 1 && laterKills == 0) {
 		return &verdict{"C06/window|killed-event-twice", fmt.Sprintf("%d ActorKilledEvent for %s; case: %s", killedEvents, tpath, c.Describe())}
+	}
+	if c.Trigger == "restart" && laterKills > 0 && killedEvents == 0 {
+		return &verdict{"C06/window|not-terminated", fmt.Sprintf("%s was killed (%d kill operations) while or after it was being restarted, yet it was never reported terminated; case: %s", tpath, laterKills, c.Describe())}
 	}
 	if terminates && killedEvents == 0 {
 		return &verdict{"C06/window|not-terminated", fmt.Sprintf("%s was never reported terminated (no ActorKilledEvent); case: %s", tpath, c.Describe())}
